@@ -299,6 +299,9 @@ func (n *NodeGroup) DeleteNodes(nodes ...*v1.Node) error {
 			return fmt.Errorf("failed to terminate instance. err: %v", err)
 		}
 		log.Debug(*result.Activity.Description)
+		// the termination decremented the desired capacity in the cloud; keep the cached
+		// description in step so later calls in the same run see the real target size
+		n.asg.DesiredCapacity = awsapi.Int64(n.TargetSize() - 1)
 	}
 
 	return nil
